@@ -137,6 +137,14 @@ def harnesses(tier, seed):
             h.name = 'projections-' + h.name
             h.expect = ['prologue:box-projector-appended-last-is-clip(lower,upper)']
             hs.append(h)
+    # ... and the alternating projection must really return the output of that last projector (exactly in the box by the binary64
+    # pbox lemma): C15's loop harness, which fails if any path of dykstra returns something else (e.g. an unprojected shortcut)
+    from . import c15
+    for h in c15.harnesses(tier, seed):
+        if h.name.startswith('stoprule[n=1,p=2') or h.name.startswith('box-exact-binary64[n=1]'):
+            h.home = 'C01'
+            h.name = 'C15-lemma:' + h.name
+            hs.append(h)
     return hs
 
 
